@@ -181,6 +181,8 @@ pub fn shrink(args: &Args, d: &Divergence) -> Option<(Case, Divergence)> {
         match correspondence(args, std::slice::from_ref(c)) { Ok(mut r) => { let mut v: Vec<Divergence> = r.panics.drain(..).collect(); v.extend(r.divergences.drain(..)); v.into_iter().next() } Err(_) => None }
     };
     let mut best = still_fails(&case)?;
+    let is_panic = |d: &Divergence| d.detail.starts_with("implementation panicked");
+    let kind = is_panic(&best);
     let mut i = case.ops.len();
     let mut budget = 70;
     while i > 0 && budget > 0 {
@@ -188,9 +190,26 @@ pub fn shrink(args: &Args, d: &Divergence) -> Option<(Case, Divergence)> {
         if case.ops.len() <= 1 { break; }
         let mut cand = case.clone();
         cand.ops.remove(i);
-        if let Some(dv) = still_fails(&cand) { case = cand; best = dv; }
+        // keep the sequence a valid use of the top-level API (ids exist when used, no double create), and keep the
+        // kind of failure: a smaller sequence that fails for another reason is not a smaller replay of this one
+        if !valid_registry_use(&cand) { continue; }
+        if let Some(dv) = still_fails(&cand) { if is_panic(&dv) == kind { case = cand; best = dv; } }
     }
     Some((case, best))
+}
+
+fn valid_registry_use(c: &Case) -> bool {
+    use crate::proto::Op;
+    let mut live: Vec<usize> = vec![];
+    for op in &c.ops {
+        match op {
+            Op::RCreate(id, _) => { if live.contains(id) { return false; } live.push(*id); }
+            Op::RDestroy(id) => { if !live.contains(id) { return false; } live.retain(|x| x != id); }
+            Op::RMarkers(id, ..) | Op::RLimit(id, _) | Op::RAdd(id, ..) | Op::RSearch(id, _) | Op::RResults(id) => { if !live.contains(id) { return false; } }
+            _ => {}
+        }
+    }
+    true
 }
 
 pub fn emit_divergences(args: &Args, rep: &CorrReport, replays: &mut Vec<String>) {
